@@ -404,8 +404,10 @@ impl<F: AsRef<Path> + AsRef<FileId>> FileGroup<F> {
             Replication::Underreplicated(_) => 0,
             Replication::Overreplicated(rf) => {
                 let rf = max(rf, 1);
-                if filter.root_paths.is_empty() {
-                    // fast-path, equivalent to the code in the else branch, but way faster
+                if filter.root_paths.is_empty() && !filter.group_by_id {
+                    // fast-path, equivalent to the code in the else branch, but way faster;
+                    // valid only if every path counts as a replica of its own
+                    // (hard links of one file are a single replica unless links are matched)
                     self.file_count().saturating_sub(rf)
                 } else {
                     let sub_groups =
